@@ -591,17 +591,20 @@ class DirectiveModel:
         ext = {"get_location": lambda a: I.Opaque("loc"),
                "::load": lambda a: (eff.append(("load", a[1])), I.Enum("Result", "Ok", {"0": I.Opaque("file")}))[1],
                "preprocess_included_file": included,
-               "mark_as_pragma_once": lambda a: (eff.append(("once",)), ())[1],
                "apply_macros": lambda a: (eff.append(("expand", a[2])), I.Enum("Result", "Ok", {"0": a[0]}))[1],
                "condition_parser::parse": lambda a: (eff.append(("eval",)), I.Enum("Result", "Ok", {"0": cond}))[1]}
         ip = I.Interp(self.f, max_depth=10, extern=ext)
         ip.max_loop = 200
         ch = I.Enum("ConditionChain", None, {"0": [I.Enum("ConditionState", s) for s in chain]})
         ms = list(macros)
+        once = I.HSet()
         try:
-            r = ip.apply(self.pc, [[], I.Enum("FileLoader", None, {"source_manager": I.Opaque("sm"), "include_depth": include_depth}), cmd, I.Enum("FileId", None, {"0": 0}), ms, ch])
+            r = ip.apply(self.pc, [[], I.Enum("FileLoader", None, {"source_manager": I.Opaque("sm"), "include_depth": include_depth, "pragma_once_files": once}), cmd, I.Enum("FileId", None, {"0": 7}), ms, ch])
         except I.Unknown as e:
             return ("aborts" if "panicking" in str(e) else "unreadable", str(e)[:120])
+        for x in once.items:
+            # (the set of files marked #pragma once is real: whoever inserts into it, a method of the loader or the directive handler itself)
+            eff.append(("once",) if isinstance(x, I.Enum) and x.fields.get("0") == 7 else ("once-for-another-file", repr(x)))
         res = r.variant if isinstance(r, I.Enum) else repr(r)
         if res == "Err" and isinstance(r.fields.get("0"), I.Enum):
             res = "Err(%s)" % r.fields["0"].variant
@@ -830,6 +833,16 @@ def rule_once(chk, loader_evaluated=False):
                "the file-id cache of FileLoader::load is keyed by %s instead of the requested file name: one file can be registered under two ids, and #pragma once (recorded per id) then lets it be pasted twice"
                % sorted({TF.describe(x) for _, o in keys for x in o} or {"?"}), where(ld), sample={"accesses": [k for k, _ in keys]})
     pc = f.fn("preprocess_command", PP)
+    if pc:
+        # #pragma once read through the directive handler on a loader whose set of marked files is real
+        dm = DirectiveModel(f)
+        got = dm.run(dm.words("pragma", "once"), [], [])
+        if got[0] not in ("unreadable",):
+            ok = got[0] == "Ok" and got[3] == [("once",)]
+            chk.ob("C12.once/marks-current-file", ok, "#pragma once records the id of the file being processed" if ok else
+                   "`#pragma once` in file 7: result %s, recorded %s; must record exactly file 7" % (got[0], got[3] if len(got) > 3 else got[1:]), where(pc))
+            chk.ob("C12.once/mark-inserts", True, "decided with C12.once/marks-current-file", where(pc), trivial=True)
+            return
     if pc:
         params = {p["pat"]["name"]: p["pat"]["id"] for p in pc["params"] if p.get("pat", {}).get("k") == "Bind"}
         ok = False
